@@ -100,6 +100,10 @@ def gen_scenario(tape):
             sc.pre.append(("call", tape.draw(3, "fn")))
         else:
             sc.pre.append(("variable", tape.draw(3, "fn")))
+    # a callable that returns None for some values (dict.get, re.match, a missing return):
+    # None is a value like any other and must reach the accumulator in every regime
+    if sc.acc in ("store", "store-items", "count", "probe") and tape.chance(1, 4, "callable-returns-None"):
+        sc.pre.append(("callnone", tape.draw(8, "pred")))
     sc.post = []
     for _ in range(tape.weighted([(3, 0), (3, 1), (1, 2)], "npost")):
         sc.post.append(tape.choice(["call", "variable", "updatecontext"], "post"))
@@ -246,6 +250,8 @@ def make_chain(sc, fills):
             f = FNS[st[1]]
             els.append(lena.variables.Variable(
                 "v%d" % j, lambda d, f=f: tuple(f(x) for x in d) if isinstance(d, tuple) else f(d)))
+        elif st[0] == "callnone":
+            els.append(lambda v, p=PREDS[st[1]]: None if p(v) else v)
         elif st[0] == "filter":
             els.append(lena.flow.Filter(PREDS[st[1]]))
         elif st[0] == "slice":
@@ -471,7 +477,8 @@ def culprit(sc, base, r, what):
                 break
             if a.fills != b.fills or a.exc != b.exc or a.hang != b.hang:
                 return {"call": "callable", "variable": "Variable", "filter": "Filter",
-                        "slice": "Slice", "runif": "RunIf"}[sc.pre[j - 1][0]]
+                        "slice": "Slice", "runif": "RunIf",
+                        "callnone": "callable-returning-None"}[sc.pre[j - 1][0]]
     if what == "out" and sc.post:
         return "post-" + sc.acc
     return "acc-" + sc.acc
